@@ -8,9 +8,10 @@
   after the end-of-block code (`NEED` asks for a whole word before every code;
   a real stream continues with the 80 bits of the next magic and CRC), then
   `Model.Retrieve.retrieve` answers OK with the same block, `rand`, `bwt_idx`
-  and end position.  The converse is `Props.C05.Retrieve`; the gap is the same
-  six items listed there, read right-to-left (plus `deltaWindow_complete`,
-  `Props.C06.deltaWindow_iff`, in place of `deltaWindow_sound`).
+  and end position.  The converse is `Props.C05.Retrieve`; the HEADER is done
+  in both directions (`retrieve_header_complete` here, `retrieve_header_sound`
+  there — the lemmas under them are equivalences); the gap is the GROUP phase
+  only, items (4)–(6) listed in Props/C05/Retrieve.lean, read right-to-left.
 
   Proved here:
     * `retrieve_complete_partial` — acceptance does not depend on how the input
@@ -56,11 +57,12 @@ theorem retrieve_header_complete (v w : Nat) (ws : List Nat) (inv : BufInv v w)
     exact Or.inl ⟨s, rest, e, Lemmas.RetrieveBitmap.hdrOk_congr _ _ s h hk rfl rfl rfl rfl rfl, hb, i⟩
 
 open LbzVerif.Lemmas.RetrieveBits LbzVerif.Lemmas.RetrieveBitmap LbzVerif.Lemmas.RetrieveHeader in
--- `tiny`: the reference accepts the header (see Props.C05.Retrieve), five words are enough
+-- `tiny`: the reference accepts the header (see Props.C05.Retrieve); five of the six words are fetched
 example : (specHeader (bitsOf (St.start 0 0) Props.C09.Retrieve.tiny)).isSome = true ∧
     (match toTop (St.start 0 0) Props.C09.Retrieve.tiny with
-      | .top s rest => s.numTrees = 2 ∧ s.alphaSize = 4 ∧ s.selector = #[1] ∧ rest = [2863311530, 2863311530]
-      | _ => False) := by
+      | .top s rest => decide (s.numTrees = 2 ∧ s.alphaSize = 4 ∧ s.selector = #[1] ∧
+          rest = [2863311530])
+      | _ => false) = true := by
   constructor
   · decide +kernel
   · decide +kernel
